@@ -87,16 +87,21 @@ Definition setup_out (din dout : vd) (k : ckind) : vd * outcome V :=
   let '(e0, o0) := init dout 0 (Z.of_nat nr) (Z.of_nat nc) (Z.of_nat (freqs V din)) in
   match o_ret V o0 with
   | ROk =>
+    (* the z0 vectors of the source are read up to the number of ports of the *destination*;
+       for a 0 x 0 source converted to Zin the destination is 1 x 0 and has one port *)
+    let np := ports V e0 in
+    if negb (Nat.leb np (p_alloc V din) || (per_f V din && Nat.eqb (freqs V din) 0))
+    then (dout, fault V) else
     let '(e1, o1) := set_frequency_vector V e0 (map (fv V din) (seq 0 (freqs V din))) in
     let '(e2, o2) :=
        if per_f V din
        then fold_left (fun (acc : vd * outcome V) f =>
                          match o_ret V (snd acc) with
                          | ROk => set_fz0_vector V vzero vdef Q (fst acc) (Z.of_nat f)
-                                    (map (z0vv V din f) (seq 0 (ports V din)))
+                                    (map (z0vv V din f) (seq 0 np))
                          | _ => acc end)
                       (seq 0 (freqs V din)) (e1, o1)
-       else set_z0_vector V vzero vdef e1 (map (z0v V din) (seq 0 (ports V din))) in
+       else set_z0_vector V vzero vdef e1 (map (z0v V din) (seq 0 np)) in
     match o_ret V o1, o_ret V o2 with
     | ROk, ROk =>
       let '(e3, o3) := set_filetype V e2 (ftype V din) in
@@ -177,18 +182,21 @@ Definition convert (din dout : vd) (same : bool) (ntz : Z) : vd * outcome V :=
   end.
 
 (* ---------------------------------------------------------------- two-object machine *)
-Inductive mop := MOn (i : bool) (o : op V) | MConv (src dst : bool) (nt : Z).
+(* MReset = vnadata_free of both objects followed by two fresh vnadata_alloc *)
+Inductive mop := MOn (i : bool) (o : op V) | MConv (src dst : bool) (nt : Z) | MReset.
 Definition mstate := (vd * vd)%type.
 Definition sel (s : mstate) (i : bool) : vd := if i then snd s else fst s.
 Definition put (s : mstate) (i : bool) (d : vd) : mstate := if i then (fst s, d) else (d, snd s).
 
+Definition minit : mstate := (vd_alloc V vzero vdef, vd_alloc V vzero vdef).
+
 Definition mstep (s : mstate) (m : mop) : mstate * outcome V :=
   match m with
+  | MReset => (minit, ok V)
   | MOn i o => let '(d, r) := step V vzero vdef Q (sel s i) o in (put s i d, r)
   | MConv a b nt => let '(d, r) := convert (sel s a) (sel s b) (Bool.eqb a b) nt in (put s b d, r)
   end.
 
-Definition minit : mstate := (vd_alloc V vzero vdef, vd_alloc V vzero vdef).
 Definition mrun (s : mstate) (l : list mop) : mstate := fold_left (fun s o => fst (mstep s o)) l s.
 
 End Convert.
